@@ -37,6 +37,7 @@ JudgeCheck(e) ==
   IN /\ PrintT(<<"NOTE", l, ToJson([kind |-> "check", v |-> d.v, key |-> d.key, f |-> f, owner |-> own])>>)
      /\ own
      /\ Matches(e.go, d)
+     /\ (Has(e, "ps") => e.ps.panic = "")        \* ParseStateInit on the same text: whatever it answers, it does not crash
 
 Result(g, want) == /\ g.panic = ""
                    /\ \/ want \in {"accept", "free"} /\ g.ok /\ g.err = ""
